@@ -66,6 +66,15 @@ fn run_line(s: &mut Session, toks: &[&str]) -> Option<String> {
             hashlittle2(&unhex(m)?, &mut pc, &mut pb);
             format!("{pc:08x} {pb:08x}")
         }
+        ["md5", m] => {
+            let d = unhex(m)?;
+            let ck = cascette_crypto::md5::ContentKey::from_data(&d);
+            let ek = cascette_crypto::md5::EncodingKey::from_data(&d);
+            if ck.as_bytes() != ek.as_bytes() {
+                s.oracle_fail("md5-keys-differ", &format!("ContentKey and EncodingKey of the same data differ: {}", m), &[format!("md5 {m}")]);
+            }
+            hex(ck.as_bytes())
+        }
         ["j96", m] => {
             let j = Jenkins96::hash(&unhex(m)?);
             format!("{:016x} {:08x}", j.hash64, j.hash32)
@@ -255,6 +264,9 @@ fn main() {
         ("arc4 4b6579 506c61696e74657874", "bbf316e8d940af0ad3"),
         ("arc4 57696b69 7065646961", "1021bf0420"),
         ("arc4 536563726574 41747461636b206174206461776e", "45a01f645fc35b383552544b9bf5"),
+        ("md5 -", "d41d8cd98f00b204e9800998ecf8427e"),
+        ("md5 616263", "900150983cd24fb0d6963f7d28e17f72"),
+        ("md5 6d65737361676520646967657374", "f96b697d7cb7938d525a2f31aaf161d0"),
         ("hl 0 -", "deadbeef"),
         ("hl 3735928559 -", "bd5b7dde"),
         ("hl2 0 0 -", "deadbeef deadbeef"),
@@ -367,6 +379,12 @@ fn main() {
         let rq = format!("j96 {}", hex(&msg));
         emit(&mut s, rq.clone());
         s.case(Some(&rq));
+        // MD5 content/encoding keys (every length: all paddings incl. the 55/56/64-byte boundaries)
+        if len <= 300 || len % 64 < 2 || len % 64 > 54 {
+            let rq = format!("md5 {}", hex(&msg));
+            emit(&mut s, rq.clone());
+            s.case(Some(&rq));
+        }
     }
     // guards
     for ivlen in [0usize, 1, 3, 5, 7, 9, 12, 16] {
